@@ -1,6 +1,8 @@
 package eng
 
 import (
+	"os"
+	"runtime/debug"
 	"fmt"
 	"go/constant"
 	"strconv"
@@ -18,6 +20,7 @@ type CheckConfig struct {
 	StrBytes    bool `json:"strbytes"`     // keep byte-level facts about string<->[]byte conversions (quantified)
 	MaxPaths    int  `json:"max_paths"`
 	InlineDepth int  `json:"inline_depth"`
+	NoAutoInline bool `json:"no_auto_inline"`
 	NilDeref    bool `json:"nilderef"`
 	// Unroll > 0 switches to witness-search mode: loops are unrolled that many times without
 	// invariants (bounded; used only to find reachable counterexamples for replay, never to prove).
@@ -1031,7 +1034,6 @@ type mods struct {
 func (e *Engine) loopMods(fn *ssa.Function, l *loop) mods {
 	var m mods
 	seen := map[*ssa.Alloc]bool{}
-	addHeap := func(p string) { m.heap = append(m.heap, p) }
 	var blocks []*ssa.BasicBlock
 	for b := range l.blocks {
 		blocks = append(blocks, b)
@@ -1039,69 +1041,78 @@ func (e *Engine) loopMods(fn *ssa.Function, l *loop) mods {
 	sort.Slice(blocks, func(i, j int) bool { return blocks[i].Index < blocks[j].Index })
 	for _, b := range blocks {
 		for _, in := range b.Instrs {
-			switch x := in.(type) {
-			case *ssa.Store:
-				e.storeTargets(x.Addr, seen, &m)
-			case *ssa.MapUpdate:
-				addHeap("MD!")
-				addHeap("MV!")
-				addHeap("ML!")
-			case *ssa.Send:
-				addHeap("CL!")
-			case *ssa.UnOp:
-				if x.Op == token.ARROW {
-					addHeap("CL!")
-				}
-			case *ssa.Select:
-				addHeap("CL!")
-			case *ssa.Alloc, *ssa.MakeMap, *ssa.MakeSlice, *ssa.MakeChan, *ssa.MakeClosure, *ssa.MakeInterface:
-				addHeap("Alloc")
-				if al, ok := x.(*ssa.Alloc); ok {
-					if !seen[al] {
-						seen[al] = true
-						m.allocs = append(m.allocs, al)
-					}
-					// re-initialised objects
-					t := deref(al.Type())
-					if _, ok := t.Underlying().(*types.Struct); ok {
-						addHeap("F!" + structKey(t) + "!")
-					}
-					if at, ok := t.Underlying().(*types.Array); ok {
-						addHeap("E!" + typeKey(at.Elem()))
-					}
-					if e.allocEscapes(al) {
-						addHeap("C!" + typeKey(t))
-					}
-				}
-				if _, ok := x.(*ssa.MakeMap); ok {
-					addHeap("MD!")
-					addHeap("MV!")
-					addHeap("ML!")
-				}
-				if ms, ok := x.(*ssa.MakeSlice); ok {
-					addHeap("E!" + typeKey(ms.Type().Underlying().(*types.Slice).Elem()))
-				}
-				if _, ok := x.(*ssa.MakeChan); ok {
-					addHeap("CL!")
-					addHeap("CC!")
-				}
-			case *ssa.Convert:
-				if sl, ok := x.Type().Underlying().(*types.Slice); ok {
-					addHeap("Alloc")
-					addHeap("E!" + typeKey(sl.Elem()))
-				}
-			case *ssa.Call:
-				e.callMods(x.Common(), &m)
-			case *ssa.Go:
-				m.all = true
-			case *ssa.Defer:
-				e.callMods(x.Common(), &m)
-			case *ssa.RunDefers:
-				m.all = true
-			}
+			e.instrMods(in, seen, &m, 0)
 		}
 	}
 	return m
+}
+
+// instrMods adds what one instruction may modify (for the havoc at a loop head).
+func (e *Engine) instrMods(in ssa.Instruction, seen map[*ssa.Alloc]bool, m *mods, depth int) {
+	switch x := in.(type) {
+	case *ssa.Store:
+		e.storeTargets(x.Addr, seen, m)
+	case *ssa.MapUpdate:
+		m.heap = append(m.heap, "MD!")
+		m.heap = append(m.heap, "MV!")
+		m.heap = append(m.heap, "ML!")
+	case *ssa.Send:
+		m.heap = append(m.heap, "CL!")
+	case *ssa.UnOp:
+		if x.Op == token.ARROW {
+			m.heap = append(m.heap, "CL!")
+		}
+	case *ssa.Select:
+		m.heap = append(m.heap, "CL!")
+	case *ssa.Alloc, *ssa.MakeMap, *ssa.MakeSlice, *ssa.MakeChan, *ssa.MakeClosure, *ssa.MakeInterface:
+		m.heap = append(m.heap, "Alloc")
+		if al, ok := x.(*ssa.Alloc); ok {
+			if !seen[al] {
+				seen[al] = true
+				m.allocs = append(m.allocs, al)
+			}
+			// re-initialised objects
+			t := deref(al.Type())
+			if _, ok := t.Underlying().(*types.Struct); ok {
+				m.heap = append(m.heap, "F!" + structKey(t) + "!")
+			}
+			if at, ok := t.Underlying().(*types.Array); ok {
+				m.heap = append(m.heap, "E!" + typeKey(at.Elem()))
+			}
+			if e.allocEscapes(al) {
+				m.heap = append(m.heap, "C!" + typeKey(t))
+			}
+		}
+		if _, ok := x.(*ssa.MakeMap); ok {
+			m.heap = append(m.heap, "MD!")
+			m.heap = append(m.heap, "MV!")
+			m.heap = append(m.heap, "ML!")
+		}
+		if ms, ok := x.(*ssa.MakeSlice); ok {
+			m.heap = append(m.heap, "E!" + typeKey(ms.Type().Underlying().(*types.Slice).Elem()))
+		}
+		if _, ok := x.(*ssa.MakeChan); ok {
+			m.heap = append(m.heap, "CL!")
+			m.heap = append(m.heap, "CC!")
+		}
+	case *ssa.Convert:
+		if sl, ok := x.Type().Underlying().(*types.Slice); ok {
+			m.heap = append(m.heap, "Alloc")
+			m.heap = append(m.heap, "E!" + typeKey(sl.Elem()))
+		}
+	case *ssa.Call:
+		e.callModsDepth(x.Common(), m, seen, depth)
+	case *ssa.Go:
+		m.all = true
+	case *ssa.Defer:
+		e.callModsDepth(x.Common(), m, seen, depth)
+	case *ssa.RunDefers:
+		m.all = true
+	}
+	if m.all && os.Getenv("GOVC_DEBUG_HAVOC") != "" {
+		fmt.Fprintf(os.Stderr, "instrMods: all after %T %v in %s\n", in, in, in.Parent())
+	}
+
 }
 
 func (e *Engine) storeTargets(addr ssa.Value, seen map[*ssa.Alloc]bool, m *mods) {
@@ -1194,6 +1205,9 @@ func addrEscapes(v ssa.Value, refs *[]ssa.Instruction, depth int) bool {
 }
 
 func (e *Engine) havocAll(s *State) {
+	if os.Getenv("GOVC_DEBUG_HAVOC") != "" {
+		fmt.Fprintf(os.Stderr, "havocAll in %s stack=%v\n%s\n", e.FnKey, e.inlineStack, debug.Stack())
+	}
 	var names []string
 	for name := range e.heapSorts {
 		names = append(names, name)
